@@ -233,3 +233,140 @@ func augLoad(c *Ctx, a *flAgg) {
 }
 
 var _ = ssa.Instruction(nil)
+
+// augParams (AUG-params): extractArgumentsType yields one type name per
+// printed argument: the pointer receiver first (a value receiver is not
+// printed and a declaration with zero or several receivers is no method),
+// then for every parameter field its type once per declared name, once if
+// the field is unnamed. Decided over all paths of the function (lists of up
+// to two fields with up to two names each; longer ones repeat the same loop
+// bodies).
+func augParams(c *Ctx, a *flAgg) {
+	const rule = "AUG-params"
+	fn := c.MustFunc(a.obls, rule, "stack", "", "extractArgumentsType")
+	if fn == nil {
+		return
+	}
+	exprHome = fn.Pkg.Pkg
+	x := &SPE{Fn: fn, MaxVisits: 3}
+	x.Explore()
+	if len(fn.Params) != 1 {
+		a.und(rule, "extractArgumentsType/signature", "unexpected signature", fn.Pos())
+		return
+	}
+	f := fn.Params[0].Name()
+	params := f + ".Type.Params.List"
+	recv0 := f + ".Recv.List[0]"
+	nPaths, okRecv, okMult, okVal := 0, true, true, true
+	whyRecv, whyMult := "", ""
+	for _, p := range x.Paths {
+		if p.Term != "return" {
+			continue
+		}
+		// the list that is ranged over
+		var L *Expr
+		for _, ev := range p.Events {
+			if ev.Kind == EvCall && ev.Val.Op == OpBuiltin && ev.Val.Name == "len" && len(ev.Val.Args) == 1 {
+				if x := ev.Val.Args[0]; x.Op == OpBuiltin && x.Name == "append" && len(x.Args) == 2 && x.Args[1].String() == params {
+					L = x
+				}
+			}
+		}
+		if L == nil {
+			// the parameter list itself is ranged over (no receiver prepended on this path)
+			for _, ev := range p.Events {
+				if ev.Kind == EvCall && ev.Val.Op == OpBuiltin && ev.Val.Name == "len" && len(ev.Val.Args) == 1 && ev.Val.Args[0].String() == params {
+					L = ev.Val.Args[0]
+				}
+			}
+		}
+		if L == nil {
+			continue
+		}
+		nPaths++
+		included := false
+		if L.Op == OpBuiltin && L.Name == "append" {
+			base := L.Args[0]
+			if base.Op == OpBuiltin && base.Name == "append" && len(base.Args) == 2 && base.Args[1].Op == OpSlice && (isFreshEmpty(base.Args[0]) || base.Args[0].Op == OpConst) {
+				if v := p.Cells[base.Args[1].Args[0].String()+"[0]"]; v != nil && v.String() == recv0 {
+					included = true
+				} else {
+					okRecv, whyRecv = false, "something else than the receiver field is put in front of the parameters: "+base.String()
+				}
+			} else if !isFreshEmpty(base) && base.Op != OpConst {
+				okRecv, whyRecv = false, "unexpected head of the argument list: "+base.String()
+			}
+		}
+		recvNil, h1 := p.lit("(" + f + ".Recv == nil)")
+		one, h2 := p.lit("(len(" + f + ".Recv.List) == 1)")
+		star, h3 := false, false
+		for _, lt := range p.Lits {
+			if s := lt.Atom.String(); strings.HasPrefix(s, recv0+".Type.(") && strings.Contains(s, "StarExpr") {
+				star, h3 = lt.Pol, true
+			}
+		}
+		want := h1 && !recvNil && h2 && one && h3 && star
+		if included != want {
+			okRecv = false
+			whyRecv = fmt.Sprintf("the receiver is counted=%v on a path where 'exactly one receiver, of pointer type' is %v (%s)", included, want, litsString(p))
+		}
+		// per element
+		ls := L.String()
+		for k := 0; k < 3; k++ {
+			el := fmt.Sprintf("%s[%d]", ls, k)
+			visited := false
+			for _, ev := range p.Events {
+				if ev.Kind == EvCall && ev.Val.calleeIs(stackPkg, "fieldToType") && len(ev.Val.Args) == 2 && ev.Val.Args[1].String() == el {
+					visited = true
+				}
+			}
+			if !visited {
+				break
+			}
+			val := "fieldToType(" + el + ")#0"
+			n := 0
+			for _, ev := range p.Events {
+				if ev.Kind == EvStore && strings.HasPrefix(ev.Addr.String(), "&varargs") && ev.Val.String() == val {
+					n++
+				}
+			}
+			unnamed, have := p.lit("(len(" + el + ".Names) == 0)")
+			wantN := -1
+			switch {
+			case !have:
+			case unnamed:
+				wantN = 1
+			default:
+				wantN = 1
+				for j := 1; j < 4; j++ {
+					if v, ok := p.lit(fmt.Sprintf("(%d < len(%s.Names))", j, el)); ok && v {
+						wantN++
+					}
+				}
+			}
+			if wantN < 0 {
+				okMult, whyMult = false, "the number of names of a field is not looked at ("+litsString(p)+")"
+			} else if n != wantN {
+				okMult = false
+				whyMult = fmt.Sprintf("a field with %s contributes %d type(s) instead of %d", map[bool]string{true: "no name", false: "names"}[unnamed], n, wantN)
+			}
+			if n == 0 {
+				okVal = false
+			}
+		}
+	}
+	if nPaths == 0 {
+		a.und(rule, "extractArgumentsType/list", "the list of fields ranged over was not recognised", fn.Pos())
+		return
+	}
+	if okRecv {
+		a.ok(rule, "extractArgumentsType/receiver", "the receiver comes first, and only when it is the single, pointer-typed receiver", fn.Pos())
+	} else {
+		a.bad(rule, "extractArgumentsType/receiver", whyRecv+": every argument of a method is decoded against the type of its neighbour", fn.Pos())
+	}
+	if okMult && okVal {
+		a.ok(rule, "extractArgumentsType/multiplicity", fmt.Sprintf("each field contributes its type once per name, once when unnamed (%d paths)", nPaths), fn.Pos())
+	} else {
+		a.bad(rule, "extractArgumentsType/multiplicity", whyMult+": the arguments after it are decoded against the wrong types", fn.Pos())
+	}
+}
